@@ -177,3 +177,36 @@ func c20R7(h H) {
 		r.Unresolve("R7", "Logger.ServeHTTP: no ShouldLog call")
 	}
 }
+
+// c20SetVerbatim: custom placeholder values are published verbatim.  Handlers publish request text through
+// Replacer.Set (the user name of a failed login, rewrite captures); Set must keep the text as given — if it expanded
+// it, a client could have its own placeholders evaluated the next time the value is logged.
+func c20SetVerbatim(h H) {
+	r := h.r
+	fn := h.fn("R2", hs, "(*replacer).Set")
+	if fn == nil {
+		return
+	}
+	n := 0
+	for _, g := range withHelpers(fn, 2) {
+		allInstrs(g, func(in ssa.Instruction) {
+			mu, ok := in.(*ssa.MapUpdate)
+			if !ok {
+				return
+			}
+			n++
+			verbatim := allFlowsThrough(mu.Value, func(v ssa.Value) bool {
+				_, isParam := v.(*ssa.Parameter)
+				return isParam
+			}, false)
+			throughCall := derives(mu.Value, func(v ssa.Value) bool {
+				_, isCall := v.(*ssa.Call)
+				return isCall
+			}, flowOpts{})
+			r.Check(verbatim && !throughCall, "R2", "httpserver.(*replacer).Set/value-stored-verbatim", in.Pos(), "the value published for a custom placeholder is the caller's text itself, not the result of expanding or otherwise transforming it", describe(mu.Value))
+		})
+	}
+	if n == 0 {
+		r.Unresolve("R2", "(*replacer).Set: no map update found")
+	}
+}
